@@ -288,7 +288,9 @@ def getaxes_broadcast(obj, indices):
 
         # ...else use a list of tuples
         else:
-            values = list(zip(*[obj.axes[i].values[indices2[i]] for i in array_ix_pos]))
+            tuples = list(zip(*[obj.axes[i].values[indices2[i]].tolist() for i in array_ix_pos]))
+            values = np.empty(len(tuples), dtype=object) # 1-D array of tuples, each label keeps its own type
+            values[:] = tuples
             name = ",".join([obj.axes[i].name for i in array_ix_pos])
 
         broadcastaxis = Axis(values, name)
